@@ -274,7 +274,7 @@ func TestC15Rollover(t *testing.T) {
 
 		n := c.Int("ops", 4, 120)
 		for i := 0; i < n; i++ {
-			switch c.Weighted("op", 0, 30, 12, 40, 8, 4, 8) {
+			switch c.Weighted("op", 0, 30, 12, 40, 8, 4, 8, 3) {
 			case 1:
 				seal(c.Pick("seal.dir", 2), false)
 			case 2:
@@ -300,6 +300,27 @@ func TestC15Rollover(t *testing.T) {
 				d.pending = append(d.pending[:idx], d.pending[idx+1:]...)
 				deliver(x, false)
 				d.done = append(d.done, x)
+			case 7: // the remote asks for new keys with an unusable key-exchange share: the attempt fails
+				di := c.Pick("badkx.dir", 2)
+				d := dirs[di]
+				which, enc := "sender", d.sendE
+				if c.Bool("badkx.receiver") {
+					which, enc = "receiver", d.recvE
+				}
+				share := make([]byte, 32) // a low-order point: parses, but the exchange refuses it
+				if c.Bool("badkx.short") {
+					share = share[:c.Int("badkx.len", 0, 31)]
+				}
+				before := hex.EncodeToString(d.sendH.OutKey())
+				_, _, err := enc.InitKeyServer(share, "ECDH-X25519/BLAKE3")
+				ops = append(ops, fmt.Sprintf("failed key exchange at dir%d %s (share of %d bytes) -> err=%v", di, which, len(share), err))
+				if err == nil {
+					c.Fatalf("a key exchange with an all-zero share of %d bytes succeeded", len(share))
+				}
+				if hex.EncodeToString(d.sendH.OutKey()) != before {
+					c.Fatalf("a failed key exchange changed the out key")
+				}
+				c.Class("history-with-a-failed-key-exchange")
 			case 6: // a damaged copy of a frame that is still under way (also of the first frames after the wrap)
 				di := c.Pick("forge.dir", 2)
 				d := dirs[di]
